@@ -30,6 +30,10 @@ fn next_float(_: ()) -> IO<f64> {
 }
 
 fn gen_int_range(low: VmInt, high: VmInt) -> IO<VmInt> {
+    if low >= high {
+        // `random_range` panics on an empty range
+        return IO::Exception(format!("gen_int_range: the range {}..{} is empty", low, high));
+    }
     IO::Value(rand::rng().random_range(low..high))
 }
 
